@@ -209,22 +209,28 @@ def run_views_case(case):
     # classify_by_sections runs (section_engine calls expr_parser.evaluate_ast through the module attribute)
     def failing():
         cfg = SE.parse_sections(views_text())
-        idx = {id(sec.filter_ast): i for i, sec in enumerate(cfg.sections)}
-        bad = []
-        orig = EP.evaluate_ast
+        # identical filter texts share one cached AST object, so the failing view is identified by wrapping
+        # evaluate_section_filter (which classify_merchants calls through the module attribute), not by the AST
+        idx = {id(sec): i for i, sec in enumerate(cfg.sections)}
+        bad, cur = [], [None]
+        orig_ast, orig_filter = EP.evaluate_ast, SE.evaluate_section_filter
 
         def rec(tree, ctx):
             try:
-                return orig(tree, ctx)
+                return orig_ast(tree, ctx)
             except EP.ExpressionError:
                 m = ctx.transactions[0]['merchant'] if ctx.transactions else None
-                bad.append([idx.get(id(tree), -1), m])
+                bad.append([cur[0], m])
                 raise
-        EP.evaluate_ast = rec
+
+        def filt(section, *a, **k):
+            cur[0] = idx.get(id(section), -1)
+            return orig_filter(section, *a, **k)
+        EP.evaluate_ast, SE.evaluate_section_filter = rec, filt
         try:
             AN.classify_by_sections(by_merchant(), cfg, num_months=12)
         finally:
-            EP.evaluate_ast = orig
+            EP.evaluate_ast, SE.evaluate_section_filter = orig_ast, orig_filter
         return bad
     out['failing'] = guarded(failing)
     if 'ok' in out['failing']:
